@@ -5,6 +5,8 @@ Lemmas about the Pratt model (`Model/Pratt.lean`) used by `Props/C04.lean`.
 Part 1: the in-order token yield `Expr.flatten` and the fact that every parser function consumes
 exactly the yield of what it builds (simultaneous induction on the fuel).
 -/
+deriving instance DecidableEq for Except
+
 namespace SqlVerif.Pratt
 
 /-- in-order token yield of a tree; `Nested`, `IN (…)` and `ANY (…)` contribute their parentheses -/
@@ -144,6 +146,13 @@ theorem escapeTail_yield (c : Cfg) (ts esc rest : List Tok)
     all_goals first
       | (simp at h; done)
       | (simp at h; obtain ⟨rfl, rfl⟩ := h; simp [this.1])
+
+theorem prefixHead_lparen (c : Cfg) (ts : List Tok) (plan : PrefixPlan)
+    (h : prefixHead c (.sym .LParen :: ts) = .ok plan) : plan = .paren ts := by
+  simp only [prefixHead] at h
+  repeat' split at h
+  all_goals simp at h
+  exact h.symm
 
 theorem collateCheck_ok {e e' : Expr} {rest rest' : List Tok} (h : collateCheck e rest = .ok (e', rest')) :
     e' = e ∧ rest' = rest := by
